@@ -212,3 +212,58 @@ package keeper
 //@   modifies bal, supply
 //@   ensures signer_is_owner: err == nil ==> has(byMinUnit, msg.Coin.Denom) && msg.Owner == t0.Owner && t0.Mintable
 //@ end
+
+// ---------------------------------------------------------------------------------------------
+// Fee-token swap on the ledger (C10): what is burned is taken from the sender in the offered denomination and is not
+// more than offered; what is minted goes to the recipient; the module account nets to zero; supply moves by exactly
+// the two amounts; the amounts themselves are LossLessSwap's (types contract: never over-minted).
+//@ func Keeper.SwapFeeToken
+//@   property C10
+//@   returns burned, minted, err
+//@   requires feePaid.Amount > 0 && sender != MOD && (recipient == nil || recipient != MOD) && minUnitWF(feePaid.Denom)
+//@   requires forall m:Str :: has(k.registry, m) ==> !isnil(get(k.registry, m).Ratio) && raw(get(k.registry, m).Ratio) > 0
+//@   requires forall s:Str :: has(tokens, s) ==> get(tokens, s).Scale <= 18
+//@   let rcpt = ite(recipient == nil, sender, recipient)
+//@   modifies bal, supply
+//@   ensures burned_ok: err == nil ==> burned.Denom == feePaid.Denom && 0 <= burned.Amount && burned.Amount <= feePaid.Amount && minted.Amount >= 0
+//@   ensures ledger:    err == nil ==> bal == credit(debit(old(bal), sender, burned.Denom, burned.Amount), rcpt, minted.Denom, minted.Amount)
+//@   ensures supply_moves: err == nil ==> supply == addcoin(addcoin(old(supply), burned.Denom, 0 - burned.Amount), minted.Denom, minted.Amount)
+//@ end
+
+// ERC20 side (EVM calls through the contract ABI): assumed contracts - they do not touch the bank ledger
+//@ func Keeper.BurnERC20
+//@   property C10
+//@   trusted
+//@   returns err
+//@ end
+//@ func Keeper.MintERC20
+//@   property C10
+//@   trusted
+//@   returns err
+//@ end
+//@ func Keeper.ERC20Enabled
+//@   property C10
+//@   trusted
+//@   returns on
+//@ end
+
+// native side of the ERC20 conversions (C10): exactly the converted amount is minted to the receiver / burned from the
+// sender, after / before the same amount is burned / minted on the ERC20 contract; the module account nets to zero
+//@ func Keeper.SwapFromERC20
+//@   property C10
+//@   returns err
+//@   requires wantedAmount.Amount >= 0 && ufb("denom_valid", wantedAmount.Denom) && receiver != MOD
+//@   modifies bal, supply
+//@   ensures minted_to_receiver: err == nil ==> bal == credit(old(bal), receiver, wantedAmount.Denom, wantedAmount.Amount)
+//@                                 && supply == addcoin(old(supply), wantedAmount.Denom, wantedAmount.Amount)
+//@   ensures known_token: err == nil ==> has(byMinUnit, wantedAmount.Denom)
+//@ end
+//@ func Keeper.SwapToERC20
+//@   property C10
+//@   returns err
+//@   requires amount.Amount >= 0 && ufb("denom_valid", amount.Denom) && sender != MOD
+//@   modifies bal, supply
+//@   ensures burned_from_sender: err == nil ==> bal == debit(old(bal), sender, amount.Denom, amount.Amount)
+//@                                 && supply == addcoin(old(supply), amount.Denom, 0 - amount.Amount)
+//@   ensures known_token: err == nil ==> has(byMinUnit, amount.Denom)
+//@ end
